@@ -194,18 +194,18 @@ theorem bdecodeArgs_bencodeArgs (args : List Bytes) : bdecodeArgs (bencodeArgs a
 
 /-! ### conventional response handler on the decoded events -/
 
-theorem Resp.run_append (r : Resp) (xs ys : List Ev) :
-    r.run (xs ++ ys) = (match r.run xs with | .error e => .error e | .ok r' => r'.run ys) := by
+theorem Resp.run_append (fx : Bool) (r : Resp) (xs ys : List Ev) :
+    r.run fx (xs ++ ys) = (match r.run fx xs with | .error e => .error e | .ok r' => r'.run fx ys) := by
   induction xs generalizing r with
   | nil => simp [Resp.run]
   | cons e es ih =>
     simp only [List.cons_append, Resp.run]
-    cases r.step e with
+    cases r.step fx e with
     | error x => rfl
     | ok r' => exact ih r'
 
-theorem Resp.run_bytes (r : Resp) (cs : List Bytes) (h : cs ≠ [] ∨ r.bodyStarted = true) :
-    r.run (cs.map Ev.bytes) = .ok { r with bodyStarted := true, parts := r.parts ++ cs } := by
+theorem Resp.run_bytes (fx : Bool) (r : Resp) (cs : List Bytes) (h : cs ≠ [] ∨ r.bodyStarted = true) :
+    r.run fx (cs.map Ev.bytes) = .ok { r with bodyStarted := true, parts := r.parts ++ cs } := by
   induction cs generalizing r with
   | nil =>
     rcases h with h | h
